@@ -95,7 +95,8 @@ def al_steps(frame):
     return [
         P.B("+", P.X, R2), P.B("+", P.C("a"), P.C("g", R2)), P.B(">", P.C("a"), P.C(v, R2)), P.B("<=", P.X, R2),
         P.call(P.X, "where", P.E(P.B(">", P.C("a", R2), P.L(3)))), P.call(P.X, "assign", z=P.E(P.C(v, R2))), ("item", P.X, P.B(">", P.C("a", R2), P.L(3))),
-        P.call(P.C("a"), "mask", P.E(P.B("==", P.C("g", R2), P.L(0))), P.E(P.C(v, R2))), P.call(P.X, "add", P.E(R2), fill_value=1),
+        # (other = an int column: with a nullable 'other' the dtype pandas returns depends on whether NA values are actually taken)
+        P.call(P.C("a"), "mask", P.E(P.B("==", P.C("g", R2), P.L(0))), P.E(P.C("g", R2))), P.call(P.X, "add", P.E(R2), fill_value=1),
         P.call(P.C(v), "fillna", P.E(P.C("a", R2))),
     ]
 
@@ -156,13 +157,12 @@ def first_failing_prefix(case, ctx):
         sub = case[:5] + (prog[:k],) + case[6:]
         r = evaluate(sub, None, ctx.seed)
         if r[0] not in QUIET:
-            return k
-    return len(prog)
+            return k, r
+    return len(prog), None
 
 
-def input_class(case, k, pxs):
+def input_class(x):
     """narrow, value-free class of the input of the failing step: kind of the object it is applied to"""
-    x = pxs[k - 1]
     if isinstance(x, pd.DataFrame):
         return "frame[" + "+".join(sorted({P.kind_of(t) for t in x.dtypes})) + "]"
     if isinstance(x, pd.Series):
@@ -170,8 +170,17 @@ def input_class(case, k, pxs):
     return type(x).__name__
 
 
+def align_class(case):
+    """AL family: how dask has to align the two separately built operands"""
+    root = index_frame(dfh.base_frames(0, NROWS)[case[1]], case[2])
+    k1, k2 = dfh.divisions_for(root, case[3]) is not None, dfh.divisions_for(root, case[6]) is not None
+    if k1 and k2:
+        return "other:known-divisions"
+    return "other:unknown-divisions-" + ("same" if len(case[3]) == len(case[6]) else "different") + "-npartitions"
+
+
 def evaluate(case, pxs, seed):
-    """-> (status, detail, pxs).  status: ok | rejected | out_of_scope | dask-raises:<T> | wrong-value | not-lazy-mismatch"""
+    """-> (status, detail, pxs, got).  status: ok | rejected | out_of_scope | unsupported_api | dask-raises:<T> | wrong:<what differs>"""
     fam, fname, kind, parts, divmode, prog = case[:6]
     root = index_frame(dfh.base_frames(seed, NROWS)[fname], kind)
     root2 = root if fam == "AL" else None
@@ -185,7 +194,7 @@ def evaluate(case, pxs, seed):
     if fam == "AL" and not (droot.known_divisions and droot2.known_divisions) and max(droot.npartitions, droot2.npartitions) > 1:
         ordered = False  # dask must shuffle both sides to align them: row order is not promised
         if not root.index.is_unique:
-            return "out_of_scope", "shuffle-alignment of duplicated index labels", pxs
+            return "out_of_scope", "shuffle-alignment of duplicated index labels", pxs, None
     try:
         with np.errstate(all="ignore"):
             d = P.run_dask(prog, droot, pxs, root, droot2, root2)
@@ -193,21 +202,21 @@ def evaluate(case, pxs, seed):
     except Hang:
         raise
     except P.UnsupportedAPI as e:
-        return "unsupported_api", str(e), pxs
+        return "unsupported_api", str(e), pxs, None
     except Exception as e:  # noqa: BLE001
         cls = dfh.classify_exc(e)
         if cls != "crash":
-            return cls, repr(e)[:200], pxs
-        return f"dask-raises:{type(e).__name__}", repr(e)[:400], pxs
+            return cls, repr(e)[:200], pxs, None
+        return f"dask-raises:{type(e).__name__}", repr(e)[:400], pxs, None
     why = P.same(got, want, ordered=ordered)
     if why:
-        return "wrong-value", why, pxs
-    return "ok", None, pxs
+        return "wrong:" + P.diff_class(got, want, ordered), why, pxs, got
+    return "ok", None, pxs, got
 
 
 def run_case(case, ctx, pxs=None):
     fam, fname, kind, parts, divmode, prog = case[:6]
-    status, detail, pxs = evaluate(case, pxs, ctx.seed)
+    status, detail, pxs, got = evaluate(case, pxs, ctx.seed)
     nparts = max(len(parts), len(case[6]) if fam == "AL" else 0)
     ctx.case(case, nontrivial=nparts >= 2, outcome=(P.summary(pxs[-1]), status if status in QUIET else "fail"))
     if status == "ok":
@@ -215,13 +224,32 @@ def run_case(case, ctx, pxs=None):
     if status in QUIET:
         ctx.count(status)
         return
-    k = first_failing_prefix(case, ctx) if len(prog) > 1 else 1
-    key = f"{P.sig(prog[k - 1])}:{status}:{known_class(case, k, status, detail, pxs) or input_class(case, k, pxs)}"
+    k = len(prog)
+    if len(prog) > 1:
+        k, r = first_failing_prefix(case, ctx)
+        if r is not None:
+            status, detail = r[0], r[1]
+    step = prog[k - 1]
+    if fam == "AL":
+        op = P.sig(step)
+        op = "binop" if (op.startswith("binop") or op == "add") else op
+        key = f"{op}:{status}:{align_class(case)}"
+    else:
+        key = f"{P.sig(step)}:{status}:{known_class(step, status, pxs[k - 1]) or input_class(pxs[k - 1])}"
     ctx.violation(key, case, f"step {k} of {len(prog)}: {detail}")
 
 
-def known_class(case, k, status, detail, pxs):
-    """extra narrowing of recorded findings (see C36.findings.json)"""
+def known_class(step, status, x):
+    """input classes of recorded findings (C36.findings.json): one key per defect, whatever frame it was seen on"""
+    op = P.sig(step)
+    if op.startswith("astype[") and "category" in op and status == "wrong:categories-order":
+        return "any"
+    if op.startswith("astype[") and "str" in op and status == "wrong:values":
+        kinds = {P.kind_of(t) for t in (x.dtypes if isinstance(x, pd.DataFrame) else [x.dtype])}
+        if "dt" in kinds:
+            return "datetime-column"
+    if op == "assign" and status == "wrong:columns-order":
+        return "any"
     return None
 
 
